@@ -7,6 +7,9 @@ use crate::refegg::{Model, Stop};
 use egglog::EGraph;
 
 pub mod c01;
+pub mod c16;
+pub mod c17;
+pub mod c19;
 
 /// Deterministic pseudo-random stream derived from the case itself (a pure
 /// function of the input; used only to choose which observations to make).
